@@ -41,6 +41,15 @@ struct At {
     n: usize,
 }
 
+/// a primitive value (as its 128-bit sign extension) of one width, and a bit position
+#[derive(Debug, Clone, Hash, Serialize, Deserialize)]
+struct PrimBit {
+    v: i128,
+    width: u8, // 0..6: 8,16,32,64,128,size
+    signed: bool,
+    n: usize,
+}
+
 #[derive(Debug, Clone, Hash, Serialize, Deserialize)]
 struct OnesCase {
     n: usize,
@@ -1144,10 +1153,87 @@ fn ones(c: &OnesCase, ctx: &Ctx) -> Out {
     out
 }
 
+fn prim_bit_case() -> impl Strategy<Value = PrimBit> {
+    (any::<u128>(), 0u8..6, any::<bool>(), 0u8..12, 0usize..20, any::<u16>()).prop_map(|(raw, width, signed, pat, k, pos)| {
+        let bits = [8u32, 16, 32, 64, 128, usize::BITS][width as usize];
+        // patterns: random, 0, -1 / MAX, MIN, 2^k, -(2^k), 2^k - 1, single cleared bit
+        let k = (k as u32 * 7 + raw as u32 % 7) % bits;
+        let raw = match pat {
+            0 => 0,
+            1 => u128::MAX,
+            2 => 1u128 << (bits - 1),
+            3 => (1u128 << (bits - 1)) - 1,
+            4 => 1u128 << k,
+            5 => (1u128 << k).wrapping_neg(),
+            6 => (1u128 << k) - 1,
+            7 => !(1u128 << k),
+            _ => raw,
+        };
+        let mask = if bits == 128 { u128::MAX } else { (1u128 << bits) - 1 };
+        let low = raw & mask;
+        let v = if signed && (low >> (bits - 1)) & 1 == 1 { (low | !mask) as i128 } else { low as i128 };
+        // positions: around every width, the top bit of this width, beyond
+        let near = [0usize, 1, 6, 7, 8, 15, 16, 31, 32, 63, 64, 127, 128, 129, 200];
+        let n = match pos % 4 {
+            0 => near[(pos as usize / 4) % near.len()],
+            1 => (bits as usize - 1 + (pos as usize / 4) % 3).saturating_sub(1),
+            2 => k as usize,
+            _ => (pos as usize / 4) % 140,
+        };
+        PrimBit { v, width, signed, n }
+    })
+}
+
+/// `BitTest` / `PowerOfTwo` of the primitive integers (dashu-base): same semantics as the big types
+fn prim_bittest(c: &PrimBit, _ctx: &Ctx) -> Out {
+    let mut out = Out::new();
+    let bits = [8u32, 16, 32, 64, 128, usize::BITS][c.width as usize];
+    const TY: [[&str; 6]; 2] = [["prim-bit:u8", "prim-bit:u16", "prim-bit:u32", "prim-bit:u64", "prim-bit:u128", "prim-bit:usize"], ["prim-bit:i8", "prim-bit:i16", "prim-bit:i32", "prim-bit:i64", "prim-bit:i128", "prim-bit:isize"]];
+    out.label(TY[c.signed as usize][c.width as usize]);
+    // the mathematical value: unsigned 128-bit values are carried in the i128 bit pattern
+    let val: BigInt = if c.signed { BigInt::from(c.v) } else { BigInt::from(c.v as u128) };
+    let want_bit = ((&val >> c.n) & BigInt::one()) == BigInt::one();
+    let want_len = val.magnitude().bits() as usize;
+    if val.is_negative() {
+        out.nontrivial(true);
+        out.label("prim-bit: negative value");
+    }
+    if c.n + 1 >= bits as usize {
+        out.nontrivial(true);
+        out.label(if c.n + 1 == bits as usize { "prim-bit: position = top bit of the type" } else { "prim-bit: position beyond the type" });
+    }
+    macro_rules! run {
+        ($t:ty) => {{
+            let x = c.v as $t;
+            (catch(|| x.bit(c.n)), catch(|| x.bit_len()), format!("{}{}", x, stringify!($t)))
+        }};
+    }
+    let (bit, len, shown) = match (c.signed, c.width) {
+        (false, 0) => run!(u8),
+        (false, 1) => run!(u16),
+        (false, 2) => run!(u32),
+        (false, 3) => run!(u64),
+        (false, 4) => run!(u128),
+        (false, _) => run!(usize),
+        (true, 0) => run!(i8),
+        (true, 1) => run!(i16),
+        (true, 2) => run!(i32),
+        (true, 3) => run!(i64),
+        (true, 4) => run!(i128),
+        (true, _) => run!(isize),
+    };
+    cmp_v(&mut out, &format!("BitTest::bit({shown}, {})", c.n), bit, want_bit);
+    cmp_v(&mut out, &format!("BitTest::bit_len({shown})"), len, want_len);
+    // the big types agree by construction of the property: same value, same answer
+    let big = n2i(&val);
+    cmp_v(&mut out, &format!("IBig::bit({shown} as IBig, {})", c.n), catch(|| big.bit(c.n)), want_bit);
+    out
+}
+
 fn main() {
     let mut ck = Check::new(
         "C09",
-        "structured integers of every sign (magnitudes of exactly 0,1,2,3,4 words and larger; patterns all-ones, 2^k, 2^(64k) and neighbours, low words zero, runs of trailing ones across word boundaries; pairs independent / equal / b = !a / b = -a / same length / one bit flipped / unbalanced) through & | ^ ! in every ownership, assign, mixed UBig/IBig and primitive form, << >> (+assign, &usize) and the bit queries with shift counts / positions from {0,1,63,64,65,127,128,129,191..193, 64·len−1, 64·len, 64·len+1, +63..+65, +200, far beyond, 2^40, usize::MAX}; oracle = num-bigint BigInt (two's-complement bit ops, floor >>) which must agree with a word-level two's-complement model written in the check. Non-trivial: at least one negative operand, or a shift count / bit position >= 64 (calls without a position: an operand with a set bit at position >= 64); distinct = distinct case digest.",
+        "structured integers of every sign (magnitudes of exactly 0,1,2,3,4 words and larger; patterns all-ones, 2^k, 2^(64k) and neighbours, low words zero, runs of trailing ones across word boundaries; pairs independent / equal / b = !a / b = -a / same length / one bit flipped / unbalanced) through & | ^ ! in every ownership, assign, mixed UBig/IBig and primitive form, << >> (+assign, &usize) and the bit queries with shift counts / positions from {0,1,63,64,65,127,128,129,191..193, 64·len−1, 64·len, 64·len+1, +63..+65, +200, far beyond, 2^40, usize::MAX}; BitTest::bit / bit_len of the primitive integers of every width and sign (patterns 0, -1, MIN, MAX, ±2^k, 2^k-1; positions around the type's top bit and beyond); oracle = num-bigint BigInt (two's-complement bit ops, floor >>) which must agree with a word-level two's-complement model written in the check. Non-trivial: at least one negative operand, or a shift count / bit position >= 64 (calls without a position: an operand with a set bit at position >= 64); distinct = distinct case digest.",
     );
     ck.assume("num-bigint's signed bit operations are cross-checked in every case against a word-level two's-complement model in c09.rs; a disagreement aborts the case as 'unexpected panic' (oracle self-check)");
     ck.sub("ubig_bitops", (20_000, 500_000), || upair(Prof::Small), ubig_bitops);
@@ -1181,5 +1267,6 @@ fn main() {
     ck.sub("bit_position_large", (3_000, 75_000), || at_case(Prof::Large), bit_position);
     ck.sub("bit_scan", (25_000, 625_000), || int_operand(Prof::Medium), bit_scan);
     ck.sub("ones", (8_000, 200_000), ones_case, ones);
+    ck.sub("prim_bittest", (20_000, 500_000), prim_bit_case, prim_bittest);
     ck.finish();
 }
